@@ -6,6 +6,8 @@ import RactorModel.Lemmas.RacingScan
 import RactorModel.Lemmas.RemoteComplete
 import RactorModel.Lemmas.Advert
 import RactorModel.Lemmas.Compose
+import RactorModel.Lemmas.SenderAdvert
+import RactorModel.Model.Fields
 import RactorModel.Extracted
 
 /-!
@@ -1044,7 +1046,105 @@ theorem composed_terminate_stops_the_reference_for_good (k k' : Nat) (ops more :
     have : t.link.mirror.proxies.contains p = true := by simpa using this
     rw [this] at hr; simp at hr
 
+/-- two references over ONE wire: interleaved frames reach the right originals, the reply of a call
+through reference 2 reaches its caller only -/
+def composedDemo : Compose.Sys := Compose.run (Compose.init 0 0)
+  [.link (.ctl (.spawn [1, 2])), .cast 1 7 10, .cast 2 8 20, .cast 1 7 11, .call 2 9 30, .proxy 1, .proxy 2,
+   .proxy 1, .proxy 2, .moveF 0, .moveF 0, .moveF 0, .moveF 0, .answer 2 0 99, .moveB 0, .proxy 2]
+
+example : (composedDemo.nets 1).recvd = [⟨false, 7, 10⟩, ⟨false, 7, 11⟩] ∧
+    (composedDemo.nets 2).recvd = [⟨false, 8, 20⟩, ⟨true, 9, 30⟩] ∧
+    (composedDemo.nets 2).delivered = [(0, 99)] ∧ (composedDemo.nets 1).delivered = [] ∧
+    Compose.accepts composedDemo 1 = true ∧ Compose.accepts composedDemo 3 = false := by decide
+
+/-- the original of 1 stops: sends to 1 fail (even if it were re-advertised), 2 still works -/
+def composedDemoT : Compose.Sys := Compose.step composedDemo (.link (.ctl (.terminate [1])))
+
+example : Compose.accepts composedDemoT 1 = false ∧ Compose.accepts composedDemoT 2 = true ∧
+    Compose.accepts (Compose.step composedDemoT (.link (.ctl (.spawn [1])))) 1 = false := by decide
+
+/-- a read error: after the cascade reference 2 refuses sends too -/
+def composedDemoU : Compose.Sys := Compose.settle (Compose.step composedDemoT (.link (.read .err)))
+
+example : composedDemoU.link.faulted = true ∧ Compose.accepts composedDemoU 2 = false ∧
+    (Compose.step composedDemoU (.cast 2 1 1)).refused = [(2, ⟨false, 1, 1⟩)] := by decide
+
+/-! ### the sending side of the advertisement (`Model/SenderAdvert.lean`) -/
+
+/-- (clause 4, sender side) For every interleaving of actors starting and stopping on other threads
+with the session's `monitor` registration, its pid scan and its handling of the queued lifecycle
+events (actors that exist before the registration, that start BETWEEN registration and scan, that
+start later): once the scan is done and the queued events are handled, the control stream the
+session has emitted advertises exactly the remotable actors that are alive — and so (receiver side,
+`proxies_mirror_control_stream`) the peer's `remote_actors` are exactly those actors. -/
+theorem every_remotable_actor_is_advertised_by_the_sender (ops : List SenderAdvert.Op) :
+    let s := SenderAdvert.run {} ops
+    s.scanned = true → s.queue = [] →
+      ∀ i, (advertised i s.wire = true ↔ i ∈ s.alive) ∧ (i ∈ (Mirror.run {} s.wire).proxies ↔ i ∈ s.alive) := by
+  intro s hs hq i
+  have h := (SenderAdvert.inv_run ops {} SenderAdvert.inv_init).done hs i
+  have hq' : (SenderAdvert.run {} ops).queue = [] := hq
+  have h1 : advertised i s.wire = true ↔ i ∈ s.alive := by
+    simp only [SenderAdvert.pend, hq', List.map_nil, List.append_nil] at h
+    simp only [advertised, beq_iff_eq]
+    exact h
+  exact ⟨h1, ((proxies_mirror_control_stream s.wire i).1).trans h1⟩
+
+/-- "exactly once" does NOT hold on the wire: an actor that starts between the registration and
+the scan is advertised twice (harmless: `get_or_spawn_remote_actor` is idempotent — the theorem
+above is about the verdict of the stream); one that starts later is advertised once. -/
+example :
+    (SenderAdvert.run {} [.start 1, .monitor, .start 2, .scan, .evt, .start 3, .evt]).wire =
+      [.spawn [1, 2], .spawn [2], .spawn [3]] := by decide
+
+example : let s := SenderAdvert.run {} [.start 1, .monitor, .start 2, .stop 1, .scan, .evt, .evt, .stop 2, .evt]
+    s.wire = [.spawn [2], .spawn [2], .terminate [1], .terminate [2]] ∧ s.alive = [] := by decide
+
+/-! ### the fields of a message (`Model/Fields.lean`) -/
+
+/-- (clause 1: the same variant, arguments and metadata) Whatever batch of casts / calls the
+proxies of a session hand over (`Fields.proxyMsg`: reference, fresh tag, timeout), however the
+transport cuts the byte stream into pieces: the receiving `NodeSession` hands to the original named
+by each message's reference exactly the message's variant, argument bytes and metadata, in the
+same order — provided the prost codec round-trips (`dec (enc m) = some m`, a hypothesis: prost is
+outside the model) and the encoded messages fit the frame limit. -/
+theorem fields_reach_the_original_unchanged (enc : Fields.NodeMsg → Codec.Bytes) (dec : Codec.Bytes → Option Fields.NodeMsg)
+    (hrt : ∀ m, dec (enc m) = some m) (max : Nat)
+    (sends : List (Nat × Nat × Option Nat × Fields.Ser))
+    (hmax : ∀ e ∈ sends, (enc (Fields.proxyMsg e.1 e.2.1 e.2.2.1 e.2.2.2)).length ≤ max ∧
+      (enc (Fields.proxyMsg e.1 e.2.1 e.2.2.1 e.2.2.2)).length ≤ Codec.isizeMax)
+    (chunks : List Codec.Bytes)
+    (hs : chunks.flatten = Fields.stream enc (sends.map fun e => Fields.proxyMsg e.1 e.2.1 e.2.2.1 e.2.2.2)) :
+    ((Link.run ({} : Link.S Fields.NodeMsg) (Link.readerEvents dec max chunks)).recvd.map Fields.deliver) =
+      sends.map fun e => (e.1, e.2.2.2) := by
+  have h := frames_reach_node_session_under_any_fragmentation dec max
+    ((sends.map fun e => Fields.proxyMsg e.1 e.2.1 e.2.2.1 e.2.2.2).map enc) chunks
+    (by rw [hs]; rfl)
+    (by
+      intro p hp
+      simp only [List.mem_map] at hp
+      obtain ⟨m, ⟨e, he, rfl⟩, rfl⟩ := hp
+      exact hmax e he)
+    (by
+      intro p hp
+      simp only [List.mem_map] at hp
+      obtain ⟨m, _, rfl⟩ := hp
+      simp [hrt])
+  rw [h]
+  simp only [List.filterMap_map, List.map_filterMap]
+  have : (fun x : Nat × Nat × Option Nat × Fields.Ser => Option.map Fields.deliver
+      (((dec ∘ enc) ∘ fun e => Fields.proxyMsg e.1 e.2.1 e.2.2.1 e.2.2.2) x)) = fun e => some (e.1, e.2.2.2) := by
+    funext e
+    simp [Function.comp, hrt, Fields.deliver, Fields.proxyMsg]
+  rw [this]
+  simp
+
+example : Fields.deliver (Fields.proxyMsg 5 3 (some 100) ⟨true, "Get", [1, 2], some [9]⟩) =
+    (5, ⟨true, "Get", [1, 2], some [9]⟩) := by decide
+
 #print axioms C20.composed_system_refines_its_components
+#print axioms C20.every_remotable_actor_is_advertised_by_the_sender
+#print axioms C20.fields_reach_the_original_unchanged
 #print axioms C20.composed_wire_hands_each_frame_to_the_original_named_by_to
 #print axioms C20.composed_reply_goes_only_to_the_proxy_named_by_to
 #print axioms C20.composed_delivery_is_fifo_per_sender_with_the_same_fields
